@@ -336,6 +336,10 @@ func (e *FuncEnc) staticCall(in ssa.Instruction, f *ssa.Function, bindings []ssa
 		e.noPreserve = cur
 		return
 	}
+	if e.W != nil && e.W.InlineNamed != nil && (c == nil || envOnly) && bindings == nil && isModuleFn(e.W, f) && e.W.InlineNamed(f) && dagInlinable(f) && e.inlineDepth < 4 {
+		e.inlineDAG(in, f, nil, argVals, args, res)
+		return
+	}
 	if c != nil {
 		e.contractCall(in, f, c, bindings, argVals, args, rts, res)
 		return
